@@ -317,3 +317,8 @@ pub fn zero_rtt_rejected_restart(remembered_max_data: u64, early_sent: u64, earl
     core::mem::forget(st);
     w
 }
+
+/// bytes the peer may still send at connection level (local_max_data - data_recvd)
+pub fn peek_credit(s: &StreamsState) -> u64 {
+    s.local_max_data - s.data_recvd
+}
